@@ -126,7 +126,18 @@ def table(t, job, part):
         if H['plain'] is None: part.inconc(f'cannot create {kind} ({where})'); continue
         if g in ('private', 'secret'): H['protected'] = fresh(PROT)       # a second object in the protected state for the one-way cells
         if H.get('protected', 1) is None: part.inconc(f'cannot create protected {kind}'); del H['protected']
-        REF = {w: t.snap(h) for w, h in H.items()}; n0 = t.count()
+        REF = {w: t.snap(h) for w, h in H.items()}
+        # positive control of C_CopyObject itself: a plain copy equals its source.  If it does not (db back-end, token objects: DBObject::nextAttributeType
+        # is a stub, DESIGN section 4 row 11) ONE canonical finding is reported and the copy cells of this object are executed but not judged.
+        copy_broken = False; r = x.call('C_CopyObject', s=t.s, o=H['plain'], tmpl=[])
+        if r['rv'] != 0: part.observe('positive control refused: plain C_CopyObject', {'kind': kind, 'rv': r['rvname']}); copy_broken = True
+        else:
+            d = diff(REF['plain'], t.snap(r['h'])); part.case((kind, where, 'copy', 'empty-template'), nontrivial=True)
+            if d:
+                copy_broken = True; cp = t.snap(r['h'])
+                part.violation(f'C_CopyObject|{be}-backend,{where}-object,empty-template|copy-differs-from-source', f'a plain copy differs from its source in {d}', {'kind': kind, 'differs': d, 'src': {k: repr(REF["plain"].get(k))[:40] for k in d}, 'copy': {k: repr(cp.get(k))[:40] for k in d}, 'backend': be})
+            x.call('C_DestroyObject', s=t.s, o=r['h'])
+        n0 = t.count()
         cells = [('plain', a) for a in sorted(REF['plain'])] + [('protected', a) for a in ('CKA_SENSITIVE', 'CKA_EXTRACTABLE', 'CKA_WRAP_WITH_TRUSTED') if a in REF.get('protected', {})]
         forbidden = []
         for which, a in cells:
@@ -135,6 +146,10 @@ def table(t, job, part):
                 why = policy(g, a, op, cur if not isinstance(cur, tuple) else None, new); fn = 'C_SetAttributeValue' if op == 'set' else 'C_CopyObject'
                 cell = (kind, where, a, op, which)
                 r = x.call(fn, s=t.s, o=obj, tmpl=x.T([(a, new)])); ok = r['rv'] == 0
+                if op == 'copy' and copy_broken:
+                    part.case(cell, nontrivial=False); part.count('copy_cells_not_judged')
+                    if ok: x.call('C_DestroyObject', s=t.s, o=r['h'])
+                    n0 = t.count(); continue
                 part.case(cell, nontrivial=True, sample={'cell': cell, 'new': repr(new)[:40], 'rv': r['rvname'], 'must_refuse': why} if (why and len(part.samples) < 2) else None); part.count('cells_' + op)
                 after = t.snap(obj); ch = diff(ref, after); cnt = t.count()
                 inp = f'{g}/{where},{a}' + (',protected' if which == 'protected' else '')
@@ -172,7 +187,7 @@ def table(t, job, part):
             for pos in range(len(allowed) + 1):
                 tm = list(allowed); tm.insert(pos, (a, new)); posname = 'first' if pos == 0 else ('last' if pos == len(allowed) else 'middle')
                 for op, fn in (('set', 'C_SetAttributeValue'), ('copy', 'C_CopyObject')):
-                    if op == 'copy' and policy(g, a, 'copy', base.get(a), new) is None: continue
+                    if op == 'copy' and (copy_broken or policy(g, a, 'copy', base.get(a), new) is None): continue
                     r = x.call(fn, s=t.s, o=o, tmpl=x.T(tm)); ok = r['rv'] == 0; cell = (kind, where, a, op, 'mixed@' + posname); part.case(cell, nontrivial=True); part.count('cells_mixed')
                     after = t.snap(o); ch = diff(base, after); cnt = t.count(); inp = f'{g}/{where},{a},mixed@{posname}'
                     if ok:
@@ -231,14 +246,7 @@ def gates(t, job, part, on_token, V):
         r = x.call('C_SetAttributeValue', s=t.s, o=o, tmpl=x.T([('CKA_COPYABLE', True)])); part.case((kind, where, 'copyable false->true', 'set'), nontrivial=True)
         if r['rv'] == 0: V(f'C_SetAttributeValue|{g}/{where},CKA_COPYABLE,one-way|accepted', 'CKA_COPYABLE went from false back to true', {})
         x.call('C_DestroyObject', s=t.s, o=o)
-    # copy positive control
-    o = t.mk(kind, token=on_token); r = x.call('C_CopyObject', s=t.s, o=o, tmpl=[])
-    if r['rv'] != 0: part.observe('positive control refused: plain C_CopyObject', {'kind': kind, 'rv': r['rvname']})
-    else:
-        a, b = t.snap(o), t.snap(r['h']); d = [k for k in diff(a, b)]
-        part.case((kind, where, 'copy', 'empty-template'), nontrivial=True)
-        if d: part.violation(f'C_CopyObject|{g}/{where},empty-template|copy-differs-from-source', f'a plain copy differs from its source in {d}', {'kind': kind, 'differs': d, 'src': {k: repr(a.get(k))[:40] for k in d}, 'copy': {k: repr(b.get(k))[:40] for k in d}, 'backend': job['backend']})
-        x.call('C_DestroyObject', s=t.s, o=r['h'])
+    o = t.mk(kind, token=on_token)
     # private -> public
     if o is not None and t.snap(o).get('CKA_PRIVATE') is False:
         x.call('C_DestroyObject', s=t.s, o=o); o = t.mk(kind, token=on_token, private=True)
@@ -391,7 +399,7 @@ def trusted(t, job, part, V):
 # ---------------------------------------------------------------- engine 4: histories
 class KeyM:
     def __init__(s, h, origin, local, kgm, AS, NE, cls='secret', ktype='GEN', spec=True, note=''):
-        s.h = h; s.origin = origin; s.local = local; s.kgm = kgm; s.AS = AS; s.NE = NE; s.cls = cls; s.ktype = ktype; s.spec = spec; s.note = note; s.depth = 0; s.shape = (origin,)
+        s.h = h; s.origin = origin; s.local = local; s.kgm = kgm; s.AS = AS; s.NE = NE; s.cls = cls; s.ktype = ktype; s.spec = spec; s.note = note; s.depth = 0; s.shape = (origin,); s.okey = origin
 
 def histories(t, job, part):
     ck = t.ck; x = t.x
@@ -403,7 +411,7 @@ def histories(t, job, part):
             if 'CKA_CLASS' not in a: return
             sens, extr = a.get('CKA_SENSITIVE'), a.get('CKA_EXTRACTABLE'); part.count('history_checks')
             def bad(attr, exp, strong=True):
-                key = f'history|{"+".join(k.shape)},{attr}|reads-{a.get(attr)}-expected-{exp}'
+                key = f'history|{k.okey},{attr}|reads-{a.get(attr)}-expected-{exp}'
                 wit = {'seed': seed, 'steps': steps[-10:], 'key_origin': k.origin, 'note': k.note, 'attrs': {n: repr(a.get(n)) for n in HIST + ('CKA_SENSITIVE', 'CKA_EXTRACTABLE')}}
                 if strong and k.spec: part.violation(key, f'{attr} of a key made by {" -> ".join(k.shape)} reads {a.get(attr)!r}, its history says {exp!r}', wit)
                 else: part.observe('history attribute differs from the generic rule where PKCS#11 v2.40 states none (not judged)', {'key': key})
@@ -413,8 +421,8 @@ def histories(t, job, part):
                 else: part.observe('CKA_KEY_GEN_MECHANISM of a derived key is not CK_UNAVAILABLE_INFORMATION (v2.40 does not say: not judged)', {'shape': k.shape})
             if k.cls != 'public':
                 # universal truths first: "always sensitive" while readable / "never extractable" while extractable is a lie whatever the origin
-                if a.get('CKA_ALWAYS_SENSITIVE') is True and sens is False: part.violation(f'history|{"+".join(k.shape)},CKA_ALWAYS_SENSITIVE|true-on-non-sensitive-key', 'CKA_ALWAYS_SENSITIVE true on a key whose CKA_SENSITIVE is false', {'seed': seed, 'steps': steps[-10:]})
-                if a.get('CKA_NEVER_EXTRACTABLE') is True and extr is True: part.violation(f'history|{"+".join(k.shape)},CKA_NEVER_EXTRACTABLE|true-on-extractable-key', 'CKA_NEVER_EXTRACTABLE true on a key whose CKA_EXTRACTABLE is true', {'seed': seed, 'steps': steps[-10:]})
+                if a.get('CKA_ALWAYS_SENSITIVE') is True and sens is False: part.violation(f'history|{k.okey},CKA_ALWAYS_SENSITIVE|true-on-non-sensitive-key', 'CKA_ALWAYS_SENSITIVE true on a key whose CKA_SENSITIVE is false', {'seed': seed, 'steps': steps[-10:]})
+                if a.get('CKA_NEVER_EXTRACTABLE') is True and extr is True: part.violation(f'history|{k.okey},CKA_NEVER_EXTRACTABLE|true-on-extractable-key', 'CKA_NEVER_EXTRACTABLE true on a key whose CKA_EXTRACTABLE is true', {'seed': seed, 'steps': steps[-10:]})
                 if k.AS is not None and a.get('CKA_ALWAYS_SENSITIVE') is not k.AS: bad('CKA_ALWAYS_SENSITIVE', k.AS)
                 if k.NE is not None and a.get('CKA_NEVER_EXTRACTABLE') is not k.NE: bad('CKA_NEVER_EXTRACTABLE', k.NE)
             part.case(('history',) + k.shape[:6] + (step,), nontrivial=True)
@@ -456,7 +464,7 @@ def histories(t, job, part):
             if act == 'set-sensitive' or act == 'set-unextractable':
                 attr, v = ('CKA_SENSITIVE', True) if act == 'set-sensitive' else ('CKA_EXTRACTABLE', False)
                 r = x.call('C_SetAttributeValue', s=t.s, o=k.h, tmpl=x.T([(attr, v)])); steps.append((act, k.h, r['rvname']))
-                if r['rv'] == 0: k.shape += (act,)
+                if r['rv'] == 0: k.shape += (act,); part.count('hist_' + act)
             elif act == 'set-forbidden':
                 attr, v = rnd.choice([('CKA_SENSITIVE', False), ('CKA_EXTRACTABLE', True), ('CKA_ALWAYS_SENSITIVE', True), ('CKA_NEVER_EXTRACTABLE', True), ('CKA_LOCAL', True)])
                 r = x.call('C_SetAttributeValue', s=t.s, o=k.h, tmpl=x.T([(attr, v)])); steps.append((act, attr, v, k.h, r['rvname']))
@@ -470,7 +478,7 @@ def histories(t, job, part):
                 if rnd.random() < .3: tm.append(('CKA_LABEL', b'c'))
                 r = x.call('C_CopyObject', s=t.s, o=k.h, tmpl=x.T(tm)); steps.append(('copy', k.h, [n for n, _ in tm], r['rvname']))
                 if r['rv'] == 0:
-                    c = KeyM(r['h'], k.origin, k.local, k.kgm, k.AS, k.NE, k.cls, k.ktype, k.spec, k.note); c.shape = k.shape + ('copy' + ('+flags' if tm else ''),); pool.append(c); check(c, 'copy')
+                    c = KeyM(r['h'], k.origin, k.local, k.kgm, k.AS, k.NE, k.cls, k.ktype, k.spec, k.note); c.shape = k.shape + ('copy' + ('+flags' if tm else ''),); c.okey = k.okey.replace('+copy', '') + '+copy'; pool.append(c); part.count('hist_copy'); check(c, 'copy')
             else:
                 if a.get('CKA_DERIVE') is not True: continue
                 s_, e_ = flags(); other = None
@@ -495,7 +503,7 @@ def histories(t, job, part):
                 elif mech.startswith('CKM_CONCATENATE'): AS = bool(bAS); NE = bool(bNE); spec = True
                 else:   # v2.40 DH / ECDH text: AS = base.AS and derived.SENSITIVE, NE = base.NE and not derived.EXTRACTABLE; the ENCRYPT_DATA sections state nothing (generic rule, observation only)
                     AS = bool(bAS and ds); NE = bool(bNE and (de is False)); spec = mech in ('CKM_DH_PKCS_DERIVE', 'CKM_ECDH1_DERIVE')
-                c = KeyM(r['h'], 'derive', False, UNAVAIL, AS, NE, 'secret', mech, spec, f'{mech} base AS={bAS} NE={bNE} derived S={ds} E={de}'); c.shape = k.shape + ('derive:' + mech.replace('CKM_', ''),); pool.append(c); check(c, 'derive')
+                c = KeyM(r['h'], 'derive', False, UNAVAIL, AS, NE, 'secret', mech, spec, f'{mech} base AS={bAS} NE={bNE} derived S={ds} E={de}'); c.shape = k.shape + ('derive:' + mech.replace('CKM_', ''),); c.okey = 'derive:' + mech.replace('CKM_', '') + (',base=' + k.okey.split(':')[0].split('+')[0]); pool.append(c); part.count('hist_derive_' + mech.replace('CKM_', '')); check(c, 'derive')
             for q in pool: check(q, 'recheck')
         part.count('histories')
         for q in pool: x.call('C_DestroyObject', s=t.s, o=q.h)
